@@ -11,6 +11,7 @@
  *        R<slot>:<n>      realloc to n bytes (n = 0 releases)       F<slot>   release
  *        Q                query tracer bytes / count                P         schedule point
  *        D                aws_mem_tracer_dump
+ *        U<slot>:<n>      acquire n bytes from the wrapped allocator directly (a block the tracer has never seen)
  *        z<op>            the operation performed from 300 stack frames further down (stack traces of full depth)
  *   UNIT <bytes>         every size of the script is multiplied by <bytes> (e.g. 2^30) and every reported size / total
  *                        divided by it; the traced allocator then only reserves address space (nothing touches it; no
@@ -214,6 +215,21 @@ static void do_ops(struct prog *pg) {
         }
         slot = pg->k == 0 ? slot % NSLOT : (slot % 16) + pg->k * 16; /* main may use every slot, workers own 16 each */
         struct blk *bl = &slots[slot];
+        if (op[0] == 'U' && !bl->p && a && unit == 1) {
+            /* a block from the wrapped allocator itself, as if it had been obtained before the tracer was installed
+             * ("midstream", memtrace.c): from now on it is resized and released through the tracer like any other */
+            uint8_t *p = aws_mem_acquire(&traced, a);
+            bl->p = p;
+            bl->n = a;
+            bl->id = ++next_id;
+            fill(bl, 0);
+            vh_begin("AcqOutside");
+            vh_int("id", bl->id);
+            vh_int("n", (long long)a);
+            tail();
+            vh_end();
+            continue;
+        }
         if ((op[0] == 'A' || op[0] == 'C') && !bl->p) {
             size_t n = op[0] == 'A' ? a : a * b;
             if (n == 0 || (unit > 1 && op[0] == 'C')) {
